@@ -234,6 +234,34 @@ theorem c03_role (tb t ta : Int) (_h1 : tb ≤ t) (h2 : t ≤ ta) :
   unfold roleCap ns at *
   refine ⟨hc.1, hc.2, ⟨by omega, Or.inr (by omega)⟩, by omega⟩
 
+/-- **Role-requesting certificates, the parsers**: both `parseRoleCertGenParams` and
+`parseRefreshRoleCertGenParams` assign `Duration` exactly once, from the constant — in particular a
+refresh does *not* inherit anything from the certificate it presents: for every lifetime `p` of the
+presented certificate (negative, zero, 5 years …) the chosen duration is the constant, and the
+window issued at `t` satisfies the 45-day predicate. -/
+theorem c03_role_refresh (p t ta : Int) (h2 : t ≤ ta) :
+    roleDuration KM.Gen.C03.roleHandlerDur KM.Gen.C03.maxRoleRequestingCertDuration p =
+      .dur KM.Gen.C03.maxRoleRequestingCertDuration ∧
+    roleDuration KM.Gen.C03.roleRefreshDur KM.Gen.C03.maxRoleRequestingCertDuration p =
+      .dur KM.Gen.C03.maxRoleRequestingCertDuration ∧
+    ∀ d, roleDuration KM.Gen.C03.roleRefreshDur KM.Gen.C03.maxRoleRequestingCertDuration p = .dur d →
+      fixedOK roleCap ta (x509Window t d).1 (x509Window t d).2 = true := by
+  have hs : KM.Gen.C03.roleHandlerDur = [.maxConst] ∧ KM.Gen.C03.roleRefreshDur = [.maxConst] := by decide
+  rw [hs.1, hs.2]
+  refine ⟨rfl, rfl, fun d hd => ?_⟩
+  simp only [roleDuration, List.foldl, roleAssign, RoleRes.dur.injEq] at hd
+  subst hd
+  exact (c03_role t t ta (Int.le_refl t) h2).2.2.1
+
+/-- why inheriting is not harmless: a parser that takes the presented certificate's lifetime when
+it is positive (the constant otherwise) turns a 90-day certificate of another client CA into a
+90-day role-requesting certificate -/
+theorem c03_role_inherit_counterexample :
+    roleDuration [.maxConst, .presentedIfPositive] 3888000000000000 7776000000000000 = .dur 7776000000000000 ∧
+    fixedOK roleCap 1790661645600000000 (x509Window 1790661645500000000 7776000000000000).1
+      (x509Window 1790661645500000000 7776000000000000).2 = false := by
+  decide
+
 /-- **AWS role certificates**: the template's window is `[now, now + 24 h]` and nothing between
 template creation and signing touches it. -/
 theorem c03_aws (tb t ta : Int) (_h1 : tb ≤ t) (h2 : t ≤ ta) :
